@@ -77,6 +77,12 @@ def last_axis_choice(items):
     v = const_val(last)
     if v is not NOVAL and isinstance(v, int):
         return ('const', v)
+    l0 = strip_views(last)
+    if l0.op == 'binop' and l0.args[0] == 'Sub' and const_val(l0.args[2]) == 1:
+        from .walk import shape_dim
+        sd = shape_dim(l0.args[1])
+        if sd is not None and sd[1] in (-1, -2):
+            return ('const', -1)          # x[..., D - 1] with D the length of the (square) core axes is x[..., -1]
     if is_call_to(last, 'numpy.argmax'):
         return ('argmax', last)
     if is_call_to(last, 'numpy.argmin'):
